@@ -34,7 +34,10 @@ pub fn take_panic() -> String {
 
 pub fn guarded<T>(f: impl FnOnce() -> T) -> Result<T, String> {
     crate::WATCHDOG.fetch_add(1, std::sync::atomic::Ordering::Relaxed);
-    catch_unwind(AssertUnwindSafe(f)).map_err(|_| take_panic())
+    crate::IN_CALL.fetch_add(1, std::sync::atomic::Ordering::Relaxed);
+    let r = catch_unwind(AssertUnwindSafe(f));
+    crate::IN_CALL.fetch_sub(1, std::sync::atomic::Ordering::Relaxed);
+    r.map_err(|_| take_panic())
 }
 
 pub fn ival(v: InputValue) -> Val {
